@@ -42,6 +42,14 @@ def alphabet() -> dict:
 ITEMS = ["a1", "a2", "ap", "a_2", "keys", "class", "1x"]
 
 
+class Nameless:
+    """An object the list must refuse (no short_name): the refusal must leave both views consistent."""
+    tag = "bad"
+
+    def __repr__(self) -> str:
+        return "Nameless()"
+
+
 def operations() -> List[Tuple[Any, ...]]:
     ops: List[Tuple[Any, ...]] = []
     for x in ITEMS:
@@ -57,6 +65,8 @@ def operations() -> List[Tuple[Any, ...]]:
     for x in ITEMS:
         ops.append(("remove", x))
     ops += [("pop",), ("pop", 0), ("pop", 1), ("clear",), ("copy",), ("copy.copy",), ("deepcopy",), ("pickle",)]
+    # one-shot iterables and refused items
+    ops += [("extend-gen", "a1", "ap"), ("extend-gen", "keys", "a2"), ("append-bad",), ("insert-bad", 0), ("insert-bad", 1), ("extend-bad", "ap")]
     return ops
 
 
@@ -133,7 +143,7 @@ def apply(st: State, op: Tuple[Any, ...]) -> None:
     exc_impl = exc_ref = None
     before = list(ref)
     by_identity = True
-    if kind in ("append", "insert", "extend", "remove", "pop", "clear"):
+    if kind in ("append", "insert", "extend", "remove", "pop", "clear"):  # noqa: C901
         try:
             if kind == "append":
                 ref.append(A[op[1]])
@@ -170,6 +180,38 @@ def apply(st: State, op: Tuple[Any, ...]) -> None:
             st.problems.append((f"{kind}/return", f"popped {r_impl!r} expected {r_ref!r}"))
         if exc_ref is not None:
             assert ref == before
+    elif kind == "extend-gen":
+        ref.extend([A[op[1]], A[op[2]]])
+        try:
+            nil.extend(A[n] for n in op[1:])  # a generator can be consumed only once
+        except Exception as e:  # noqa
+            st.problems.append((f"{kind}/exception", f"{type(e).__name__}: {e}"))
+    elif kind in ("append-bad", "insert-bad", "extend-bad"):
+        # the operation must be refused (library error) and must leave list and names consistent; for extend the
+        # valid items before the refused one may or may not have been added
+        bad = Nameless()
+        from odxtools.exceptions import OdxError
+        allowed = [list(ref)]
+        try:
+            if kind == "append-bad":
+                nil.append(bad)
+            elif kind == "insert-bad":
+                nil.insert(op[1], bad)
+            else:
+                allowed.append(list(ref) + [A[op[1]]])
+                nil.extend([A[op[1]], bad])
+            st.problems.append((f"{kind}/accepted", "an object without short_name was accepted"))
+        except OdxError:
+            pass
+        except Exception as e:  # noqa
+            st.problems.append((f"{kind}/exception", f"{type(e).__name__}: {e}"))
+        now = list(nil)
+        match = [a for a in allowed if len(a) == len(now) and all(x is y for x, y in zip(a, now))]
+        if not match:
+            st.problems.append((f"{kind}/list-changed-by-refused-operation", f"list now {[getattr(x, 'tag', '?') for x in now]}"))
+            st.ref = [x for x in now if not isinstance(x, Nameless)]
+        else:
+            st.ref = match[0]
     else:
         if kind == "copy":
             mk = lambda: nil.copy()  # noqa
@@ -212,7 +254,7 @@ def enabled(st: State) -> List[Tuple[Any, ...]]:
     present = {id(x) for x in st.nil}
     out = []
     for op in OPS:
-        if op[0] in ("append", "insert", "extend"):
+        if op[0] in ("append", "insert", "extend", "extend-gen", "extend-bad"):
             names = op[1:] if op[0] != "insert" else op[2:]
             if any(id(st.alpha[n]) in present for n in names):
                 continue
